@@ -23,8 +23,12 @@ SPEC = {
             'shared number, and (filter part only) overlapping, start>end and beyond-the-query ranges. '
             'filter_all: enumeration of all layouts of <= 3 reports of length <= 3 with holes 0..1 x all executed subsets x 3 shapes '
             '(a prefix of the enumeration in the quick tier). pending: getPendingExecutedReports over 1..3 chains with commit '
-            'reports carrying one or several roots, reader failures. non-trivial = >= 2 reports (ranges), non-empty executed set '
-            '(filter), no scripted failure (pending); distinct by full input',
+            'reports carrying one or several roots, reader failures. history: 40 histories of 6..30 OCR rounds of four real execute.Plugin '
+            'instances (F=1, one of them silent or sending garbage in half of the histories) over a world of 1..2 source chains where commit '
+            'reports land (with holes), executions land from elsewhere (singly, out of order, across reports) and the DON\'s own reports land '
+            'fully / partly / never; the reader answers per-message, merged, chunked, repeated and touching ranges; every round\'s outcome is '
+            'compared with the model on the world snapshot of the cycle\'s first observation. non-trivial = >= 2 reports (ranges), non-empty executed set '
+            '(filter), no scripted failure (pending), Filter rounds (history); distinct by full input',
     'trusted': ['CCIPReader.CommitReportsGTETimestamp / ExecutedMessageRanges answers are oracles (scripted fake); the legal answers '
                 'considered are those whose ranges, sorted by start, each begin at or after the previous end',
                 'sort.Slice on distinct start values (equal starts are not generated; Go gives no order for them)'],
@@ -32,7 +36,8 @@ SPEC = {
     'level_text': 'Proof (function level): Coq theorems over the executable model of computeRanges, groupByChainSelector, '
                   'filterOutExecutedMessages and getPendingExecutedReports, with executed lists in closed form (runs): see Props/C09.v. '
                   'Correspondence: the three functions against the model and against an independent interval-arithmetic specification every run. '
-                  'The multi-round history part (Outcome / selectReport over rounds, liveness) is not modelled here: partial.',
+                  'History level (partial, no theorem): never-reexecuted, pending-exact and one-cycle inclusion are monitored on real four-oracle histories '
+                  'under same-view / everything-ready conditions; C09_cycle_liveness is not proved.',
     'level_note': 'Trusted: Coq kernel, hand-written model, differential harness. No axioms.',
     'modelled': 'computeRanges, groupByChainSelector, filterOutExecutedMessages, getPendingExecutedReports; the reader is an input',
 }
